@@ -489,6 +489,25 @@ def compile_ast(
         df = df.select(*left_col_names)
         right_df = right_df.select(*left_col_names)
 
+        if df.collect_schema() != right_df.collect_schema():
+            # the operands have different but compatible types, cast both to the
+            # common type
+            from pydiverse.transform._internal.pipe.cache import Cache
+
+            left_cache = Cache.from_ast(nd.child)
+            right_cache = Cache.from_ast(nd.right)
+            common = {
+                name: types.lca_type(
+                    [
+                        left_cache.cols[left_cache.name_to_uuid[name]].dtype(),
+                        right_cache.cols[right_cache.name_to_uuid[name]].dtype(),
+                    ]
+                ).to_polars()
+                for name in left_col_names
+            }
+            df = df.cast(common)
+            right_df = right_df.cast(common)
+
         # Use pl.union if available (Polars >= 1.35), otherwise use pl.concat
         # pl.union is faster than pl.concat for union operations
         # distinct=True means UNION (remove duplicates), distinct=False means UNION ALL (keep duplicates)
